@@ -642,6 +642,21 @@ func GenerateFor(r *core.Rng, maxOps int, wantOOB bool, target string) *Program 
 		}
 	}
 
+	// final dump: every element of every array by its position, so that a write
+	// that landed in the wrong slot shows even if that slot was never read back
+	if !panicked {
+		arrs, _ := g.names()
+		for _, a := range arrs {
+			n := int64(g.e.length(a))
+			if n == 0 || n > 64 {
+				continue
+			}
+			loopN++
+			v := fmt.Sprintf("i%d", loopN)
+			run(whileStmt{v: v, n: n, body: []stmt{printIdx{g.tag(), a, loopVar{v}}}})
+		}
+	}
+
 	p := Build(top, g.consts)
 	p.Shape = strings.Join(collapse(g.shape), ",")
 	p.ValidAfterAppend = g.e.validAfterAppend
